@@ -74,6 +74,20 @@ MapFail(P, v, k) ==
     /\ data'  = [x \in DOMAIN data |-> IF x \in P /\ Pos(x) < Pos(k) THEN v ELSE data[x]]
     /\ last'  = [op |-> "mapfail", on |-> P, v |-> v, k |-> k]
 
+(* What a key is spelled like is not the container's business: the model's keys are abstract names, and every    *)
+(* behaviour is replayed with the keys spelled as named and as each row below spells them.  The rows hold what     *)
+(* a text written to JSON has to treat specially: the empty key, quotation mark and backslash, control characters  *)
+(* with and without a short escape in JSON (which differ from those of Go), DEL, characters beyond ASCII and        *)
+(* beyond the basic plane, U+2028, and what HTML-safe encoders escape.  TLC prints ASCII only: <NUL> <SOH> <BEL>    *)
+(* <VT> <DEL> <EACUTE> <LS> <CUP> stand for U+0000, U+0001, U+0007, U+000B, U+007F, U+00E9, U+2028, U+1F3C6.      *)
+Spellings == <<
+  [k1 |-> "", k2 |-> "a\"b", k3 |-> "a\\b", k4 |-> "<SOH>", k5 |-> "<DEL>x", k6 |-> "<EACUTE>t<EACUTE>"],
+  [k1 |-> "<BEL>", k2 |-> "<VT>", k3 |-> "<NUL>", k4 |-> "<LS>", k5 |-> "</a>&", k6 |-> "<CUP>"],
+  [k1 |-> "\n", k2 |-> "\t", k3 |-> " ", k4 |-> "k4\\", k5 |-> "\"", k6 |-> "k1"] >>
+SpellingsAreInjective == \A i \in 1..Len(Spellings) : \A a, b \in DOMAIN Spellings[i] : Spellings[i][a] = Spellings[i][b] => a = b
+ASSUME SpellingsAreInjective
+ASSUME PrintT(ToJson([spellings |-> Spellings]))
+
 Next == \/ \E k \in Keys, v \in Vals : Set(k, v)
         \/ \E k \in Keys, v \in Vals : Update(k, v)
         \/ \E k \in Keys : Delete(k)
